@@ -293,6 +293,7 @@ section blocks
 open Matrix
 variable {K : Type} [Field K] {r p : Type} [Fintype r] [Fintype p] [DecidableEq r] [DecidableEq p]
 
+omit [DecidableEq r] [DecidableEq p] in
 /-- **tau as applied force** (block-matrix form, any index types).  If `u̇_r` solves the reduced system
 `M_rr u̇_r = f_r − M_rp u̇_p` and `tau_p = f_p − M_pr u̇_r − M_pp u̇_p` (the sign the code reports: `M u̇ + tau = f`),
 then `(u̇_r, u̇_p)` solves the **full, unprescribed** system with `−tau` applied as an ordinary mobility force:
